@@ -79,7 +79,7 @@ def c06_cases(rng, count, maxcmds=8):
     return out
 
 def file_cmd(rng, names):
-    r = rng.below(40)
+    r = rng.below(45)
     f = rng.choice(names)
     if r < 6: return [rng.choice(["1d", "$d", "1a", "s/o/0/", "1,2d", "%s/a/b/g", "1pu", "2,3d"])] + (["new", "."] if False else [])
     if r < 8: return ["a", rng.choice(WORDS), "."]
@@ -103,7 +103,16 @@ def file_cmd(rng, names):
     if r < 37: return ["@@touch " + f]
     if r < 38: return ["@@writefile " + f + " " + hx(rng.choice(WORDS) + "\n")]
     if r < 39: return ["se " + rng.choice(["wa", "nowa", "aw", "noaw"])] if rng.below(3) == 0 else [rng.choice(["1d|e! " + f, "e! " + f + "|1d", "$d|b #", "e #|$d", "1d|e " + f])]
-    return ["b!"]
+    if r < 40: return ["b!"]
+    # edits and whole / partial writes chained on one command line (one undo step, one sequence number)
+    e = lambda: rng.choice(["1d", "$d", "s/o/0/", "1,2d", "%s/a/b/g", "1pu", "u", "redo", "1co$", "$m0"])
+    w = lambda: rng.choice(["w", "w", "w", "1w", "%w", "w " + f, "w! " + f])
+    k = rng.below(5)
+    if k == 0: return [e() + "|" + w() + "|" + e()]
+    if k == 1: return [w() + "|" + e()]
+    if k == 2: return [e() + "|" + w()]
+    if k == 3: return [e() + "|" + w() + "|" + e() + "|" + w() + "|" + e()]
+    return [e() + "|" + e() + "|" + w() + "|u"]
 
 def buf_cases(rng, count, nfiles=3, maxcmds=14):
     out = []
@@ -133,7 +142,12 @@ def fault_grid(rng):
                 for kind in ("e", "1", "7"):
                     lines = ["1a", "edit", ".", "@@fault %d:%s" % (pos, kind)] + cmd + ["q", "w", "q"]
                     out.append(case([("fa", data), ("other", None)], ["fa"], lines))
-            lines = ["1a", "edit", ".", "@@fault 0:1,1:e"] + cmd + ["q", "w", "q"]
+            # a short count followed by an error on the retry, inside one batch and across batches
+            for pos in range(1, 5):
+                for kind in ("1", "7"):
+                    lines = ["1a", "edit", ".", "@@fault %d:%s,%d:e" % (pos, kind, pos + 1)] + cmd + ["q", "w", "q"]
+                    out.append(case([("fa", data), ("other", None)], ["fa"], lines))
+            lines = ["1a", "edit", ".", "@@fault 1:1,2:1,3:e"] + cmd + ["q", "w", "q"]
             out.append(case([("fa", data), ("other", None)], ["fa"], lines))
     # target states: absent, own unchanged, own newer, own appeared, foreign
     for cmd in ("w", "w!", "wq", "x", "xa", "w fb", "w! fb", "1w fb"):
@@ -211,5 +225,27 @@ def junk_ex_cases(rng, count):
                                 "@a", "@@", "@", "k", "k aa", "'", "''a", "1,", ",", ";", ",,,", "+++", "---", "1;2;3", "$+1", "0", "0d", "0a", "-5", "+5", "w /", "e /", "r /nonexistent", "b 99", "b -", "b +", "ra x", "rs", "ec"])
             lines.append(l)
         lines.append("q!")
+        out.append(case([("fa", content)], ["fa"], lines))
+    return out
+
+def c04_cases(rng, count):
+    """command lines that edit and then fail (or fail and then edit), followed by further edits and undos:
+    every top-level command line is one undo step whatever its status (C04)"""
+    out = []
+    edits = ["1d", "$d", "s/o/0/", "1,2d", "%s/a/b/g", "1pu", "1co$", "$m0", "2d", "1s/^/x/"]
+    fails = ["99d", "'zd", "/nomatchzz/d", "0d", "5,2d", "s/nomatchzz/x/", "b 9", "zz", "e! /nonexistent/x"]
+    for _ in range(count):
+        content = rand_content(rng, 6) or "one\ntwo\n"
+        lines = []
+        for _ in range(2 + rng.below(6)):
+            k = rng.below(8)
+            if k == 0: lines.append(rng.choice(edits) + "|" + rng.choice(fails))
+            elif k == 1: lines.append(rng.choice(fails) + "|" + rng.choice(edits))
+            elif k == 2: lines.append(rng.choice(edits) + "|" + rng.choice(fails) + "|" + rng.choice(edits))
+            elif k == 3: lines.append(rng.choice(fails))
+            elif k < 6: lines.append(rng.choice(edits))
+            elif k == 6: lines.append("u")
+            else: lines.append("redo")
+        lines += ["u", "%p", "u", "%p", "redo", "%p", "q!"]
         out.append(case([("fa", content)], ["fa"], lines))
     return out
